@@ -375,7 +375,7 @@ PROPS["C18"] = {
 PROPS["C19"] = {
     "pkg": "c19",
     "variants": [
-        {"name": "seq", "kinds": ["c19.seq"]},
+        {"name": "seq", "kinds": ["c19.seq", "c19.two-trees", "c19.reentrant", "c19.levelvar"]},
         {"name": "conc", "race": True, "kinds": ["c19.conc"], "shards": {"thorough": 8}},
     ],
     "technique": "differential property testing against a fresh slog.TextHandler over generated records (all attribute kinds, hostile bytes), WithAttrs derivation trees and record reuse; concurrent Handle batches under the race detector on a deliberately non-thread-safe, overlap-detecting writer",
@@ -545,6 +545,18 @@ _ADD15 = {
     "C18": " Non-shutdown signals include arbitrary signal numbers (real-time signals, numbers equal to a shutdown signal modulo 32..256) and non-syscall os.Signal values that print like shutdown signals.",
     "C20": " Handlers also write their body through io.Copy from readers without WriteTo (data together with io.EOF, one-byte reads) and through fmt.Fprint.",
 }
+_ADD16 = {
+    "C01": " Long generated strings also repeat single UTF-8 byte classes (continuation bytes, lead bytes without continuation, truncated sequences, NUL).",
+    "C09": " Key buffers are treated like value buffers: each Set gets its own, the previous one of a key is overwritten after a replacing Set.",
+    "C11": " The near-identical kind also builds each set from its values in reverse order with duplicates and compares it with the set built by Add.",
+    "C12": " Masks include 16-byte forms of dotted IPv4 masks (::ffff:a.b.c.d and other 12-byte fronts).",
+    "C16": " Error shapes include the library's own wrappers (errors.WithDeferred / Pair, errors.Annotate) around the *url.Error.",
+    "C17": " A flood action puts 300..4200 distinct keys under slow construction at once and then asks for a new key.",
+    "C19": " A two-trees kind builds two handlers separately on one atomic writer and lets a record of the second be written whenever the writer has received a payload that does not end a line.",
+}
+for _pid, _lt in _ADD16.items():
+    PROPS[_pid]["level_text"] += _lt
+
 for _pid, _lt in _ADD15.items():
     PROPS[_pid]["level_text"] += _lt
 
